@@ -7,6 +7,7 @@ structure St where
   nbName : Option String := none     -- op argument of the last nb
   cbComp : Option String := none     -- op argument of the last cb
   blob : Option Bytes := none        -- the implementation's output of the last nb / cb
+  mref : Option (Nat × String) := none   -- (bit, implementation's contiguous decode) of the last `mrd <bit> c`
 
 def specRead (mk : Mk) (cuts : String) (got : String) (what : String) : List SpecFail :=
   let got' := if mk.signed then got else stripCov got
@@ -61,6 +62,31 @@ def stepC03 (st : St) (op : String) (got : String) : StepResult St :=
       { st := { st with last := some mk' }, expected := some (modelRead mk.kind mk.w cuts),
         spec := specRead mk cuts got (if cuts == "c" then "rd-contiguous" else "rd-segmented"),
         cov := [if cuts == "c" then "rd-contiguous" else if cuts == "w" then "rd-wire1" else "rd-segmented"] }
+  | ["mrd", b, cuts] =>
+    match st.last, b.toNat? with
+    | some mk, some bit =>
+      if bit ≥ 8 * mk.w.length then { st := st, expected := some "skip" } else
+      let w := mk.w.set (bit / 8) (Nat.xor (mk.w.getD (bit / 8) 0) (2 ^ (7 - bit % 8)))
+      let st' := if cuts == "c" then { st with mref := some (bit, got) } else st
+      { st := st', expected := some (modelRead 'P' w cuts), cov := ["mrd"],
+        spec := (if isCrash got then [⟨"no-panic-malformed", "mrd", s!"decoding bytes with bit {bit} flipped crashed (cuts {cuts}): {tk got 120}"⟩] else []) ++
+                (match st.mref with
+                 | some (b0, ref) => if cuts ≠ "c" ∧ b0 == bit ∧ !isCrash got ∧ got ≠ ref then
+                     [⟨"segmentation", "malformed", s!"bit {bit} flipped: segmented decode (cuts {cuts}) differs from contiguous decode"⟩] else []
+                 | none => []) }
+    | none, _ => { st := st, expected := some "skip" }
+    | _, none => { st := st, expected := some "bad-op" }
+  | ["mrdall", b] =>
+    match st.last, b.toNat? with
+    | some mk, some bit =>
+      if bit ≥ 8 * mk.w.length then { st := st, expected := some "skip" } else
+      let w := mk.w.set (bit / 8) (Nat.xor (mk.w.getD (bit / 8) 0) (2 ^ (7 - bit % 8)))
+      { st := st, expected := some (modelAllCuts 'P' w false), cov := ["mrdall"],
+        spec := if got.startsWith "cut=" then
+                  [⟨"segmentation", "malformed", s!"bit {bit} flipped: a segmented decode differs from the contiguous decode: {tk got 160}"⟩]
+                else [] }
+    | none, _ => { st := st, expected := some "skip" }
+    | _, none => { st := st, expected := some "bad-op" }
   | ["rp", cuts] =>
     match st.last with
     | none => { st := st, expected := some "skip" }
